@@ -271,6 +271,22 @@ func cmdCheck(args []string) int {
 		}
 		defer func(vc *VC, nRet int) {}(vc, nRet)
 		retCount[vc.name] = nRet
+		// the no-panic sweep of a function is one claim: every safety obligation of it is discharged
+		sweepName := vc.name + "/no-panic-sweep-complete"
+		nSafety, nSafetyOK := 0, 0
+		for _, o := range vc.obls {
+			if safetyKind(o.Kind) {
+				nSafety++
+				if o.Result == "unsat" {
+					nSafetyOK++
+				}
+			}
+		}
+		if nSafety > 0 && nSafety == nSafetyOK {
+			newBase.Obligations = append(newBase.Obligations, sweepName)
+			seen[sweepName] = true
+		}
+		sweepWasComplete := inBase[sweepName]
 		for _, o := range vc.obls {
 			seen[o.Name] = true
 			solverTime += o.TimeS
@@ -342,6 +358,14 @@ func cmdCheck(args []string) int {
 				// only the ordinal differs) discharged on the committed baseline and does not here
 				r.Status = "violated-" + o.Result + "-new-instance"
 				why := "a contract clause that discharged at every program point of the committed baseline does not discharge at a program point of the changed code: solver says " + o.Result
+				if note != "" {
+					why += "; replay: " + note
+				}
+				violate(o.Name, why, "no-failing-input-found", o, vc)
+			case sweepWasComplete && safetyKind(o.Kind):
+				// the function's no-panic proof was complete on the committed baseline and is not any more
+				r.Status = "violated-" + o.Result + "-sweep"
+				why := "the no-panic proof of " + vc.name + " was complete on the committed baseline (every index, bound, nil, assertion, division and allocation obligation discharged); this obligation of the changed code does not discharge: solver says " + o.Result
 				if note != "" {
 					why += "; replay: " + note
 				}
@@ -582,6 +606,15 @@ func inBaseModuloOrdinal(inBase map[string]bool, name string) bool {
 		if inBase[fmt.Sprintf("%s#%d", b, k)] {
 			return true
 		}
+	}
+	return false
+}
+
+// safetyKind: obligation kinds generated without any annotation for every operation that can panic.
+func safetyKind(k string) bool {
+	switch k {
+	case "index", "slice-bounds", "nil-deref", "type-assert", "div-by-zero", "makeslice-len", "alloc-bound", "overflow", "nil-map-write", "explicit-panic", "close-nil-chan", "close-closed-chan", "send-closed-chan":
+		return true
 	}
 	return false
 }
